@@ -242,6 +242,23 @@ where
     Ok(())
 }
 
+/// `__typename` is a `String!`, it cannot have a selection set.
+fn validate_typename_is_leaf<'doc, T>(
+    field: &graphql_parser::query::Field<'doc, T>,
+) -> Result<(), QueryValidationError>
+where
+    T: graphql_parser::query::Text<'doc>,
+{
+    if field.selection_set.items.is_empty() {
+        Ok(())
+    } else {
+        Err(QueryValidationError::new(format!(
+            "Selection set on non-object, non-interface field `{}`.",
+            TYPENAME_FIELD
+        )))
+    }
+}
+
 fn resolve_union_selection<'doc, T>(
     query: &mut Query,
     _union_id: UnionId,
@@ -256,6 +273,7 @@ where
         match item {
             graphql_parser::query::Selection::Field(field) => {
                 if field.name.as_ref() == TYPENAME_FIELD {
+                    validate_typename_is_leaf(field)?;
                     let id = query.push_selection(Selection::Typename, parent);
                     parent.add_to_selection_set(query, id);
                 } else {
@@ -303,6 +321,7 @@ where
         match item {
             graphql_parser::query::Selection::Field(field) => {
                 if field.name.as_ref() == TYPENAME_FIELD {
+                    validate_typename_is_leaf(field)?;
                     let id = query.push_selection(Selection::Typename, parent);
                     parent.add_to_selection_set(query, id);
                     continue;
